@@ -2,13 +2,25 @@
 
 Driven (real, tree under test): `Session.add / delete / expunge / flush / commit / rollback / close / begin_nested / merge / get /
 refresh`, `make_transient`, `make_transient_to_detached`, an attribute set — on one or two objects of the shared harness
-class P, SQLite :memory:; `SessionEvents` lifecycle hooks recorded with class-level listeners installed once per process.
+class P, SQLite :memory:; for a related parent / child pair also `Session.expire / expire_all` and collection append / remove
+(-> the cascade walks `mapper.cascade_iterator` of save-update, merge, delete, expunge, refresh-expire; `Session._conditional_expire`,
+`_expunge_states`, `_delete_impl`, `_save_or_update_state`, delete-orphan detection at flush); `SessionEvents` lifecycle hooks
+recorded with class-level listeners installed once per process.
 
 Documented automaton (doc/build/orm/session_events.rst "Object Lifecycle Events", session_state_management.rst):
   edges WITH an event of the same name:  transient->pending, pending->persistent, pending->transient, persistent->transient,
       persistent->deleted, deleted->persistent, deleted->detached, persistent->detached, detached->persistent
   edges WITHOUT an event:  make_transient(): any state -> transient;  make_transient_to_detached(): transient -> detached
   (`loaded_as_persistent` announces an object created by a load; it must never fire for an object the application constructed)
+
+Related objects (cascades).  The transitions of an object are not only caused by operations that name it: every operation that
+names a PARENT reaches the members of its relationships along the configured cascades (save-update, merge, delete, delete-orphan,
+expunge, refresh-expire).  Second family of histories: a parent o1 and a child o2 of the pair mapping K/Kc (one-to-many `kids` with
+back reference `par`), one mapped pair per cascade configuration in CASCADES (the default "save-update, merge"; "all"; "all, delete-orphan"),
+three starting situations (both constructed by the application; parent loaded + child constructed; both loaded and linked in the
+database), operations PAIR_OPS: add / delete / expunge of either object, expire / refresh / merge of the parent, append / remove of the
+child to / from the parent's collection, flush / commit / rollback / close / expire_all.  The contract below is evaluated for BOTH objects
+after every operation, whichever object the operation named.
 
 Contract, `ensures` of every operation, per tracked object o (s0 = state before the call, s1 = state after):
   P  exactly one of inspect(o).transient / pending / persistent / deleted / detached is true, before and after
@@ -31,7 +43,33 @@ OBJ_OPS = ["add", "delete", "expunge", "make_transient", "mt2d", "modify", "refr
 SES_OPS = ["flush", "commit", "rollback", "close", "begin_nested", "get"]
 OPS1 = [f"{o}(o1)" for o in OBJ_OPS] + SES_OPS
 OPS2 = [f"{o}(o{i})" for i in (1, 2) for o in OBJ_OPS] + SES_OPS
-_G = dict(engine=None, installed=False, log=[])
+CASCADES = ["save-update, merge", "all", "all, delete-orphan"]
+PAIR_STARTS = ["transient", "parent persistent", "persistent"]
+PAIR_OPS = [f"{o}(o{i})" for i in (1, 2) for o in ("add", "delete", "expunge")] + ["expire(o1)", "refresh(o1)", "merge(o1)", "append(o2)", "remove(o2)"] + \
+           ["flush", "commit", "rollback", "close", "expire_all"]
+_G = dict(engine=None, installed=False, log=[], pair_engine=None)
+_PAIRS = None
+
+
+def pair_mappings():
+    """{cascade: (K, Kc)} — parent class K with `kids = relationship(Kc, cascade=<cascade>)`, one pair of classes (own tables) per cascade
+    configuration, one MetaData; built once per process"""
+    global _PAIRS
+    if _PAIRS is not None:
+        return _PAIRS
+    from sqlalchemy import Column, ForeignKey, Integer
+    from sqlalchemy.orm import configure_mappers, declarative_base, relationship
+    Base = declarative_base()
+    out = {}
+    for n, casc in enumerate(CASCADES):
+        K = type(f"K{n}", (Base,), dict(__tablename__=f"k{n}", id=Column(Integer, primary_key=True), x=Column(Integer),
+                                        kids=relationship(f"Kc{n}", cascade=casc, back_populates="par", order_by=f"Kc{n}.id")))
+        Kc = type(f"Kc{n}", (Base,), dict(__tablename__=f"kc{n}", id=Column(Integer, primary_key=True), pid=Column(ForeignKey(f"k{n}.id")), x=Column(Integer),
+                                          par=relationship(f"K{n}", back_populates="kids")))
+        out[casc] = (K, Kc)
+    configure_mappers()
+    _PAIRS = dict(Base=Base, pairs=out)
+    return _PAIRS
 
 
 def install():
@@ -71,6 +109,14 @@ def do(name, s, objs, P):
         o.x = (o.x or 0) + 1
     elif op == "refresh":
         s.refresh(o)
+    elif op == "expire":
+        s.expire(o)
+    elif op == "expire_all":
+        s.expire_all()
+    elif op == "append":
+        objs[0].kids.append(o)
+    elif op == "remove":
+        objs[0].kids.remove(o)
     elif op == "merge":
         s.merge(o)
     elif op == "flush":
@@ -106,25 +152,51 @@ def judge(op, before, after, evs):
     return f"state went {before} -> {after} but the events account for {before} -> {cur}"
 
 
-def run_history(names, nobj, engine=None, start="transient"):
-    """-> dict(fail=None|descriptor fields, failed_at, transitions=set, steps)"""
+def _start_pair(cascade, start, engine):
+    """the pair world: -> (session, [parent o1, child o2], parent class)"""
+    from sqlalchemy.orm import Session
+    K, Kc = pair_mappings()["pairs"][cascade]
+    kt, ct = K.__table__.name, Kc.__table__.name
+    with engine.begin() as c:
+        c.exec_driver_sql(f"delete from {ct}")
+        c.exec_driver_sql(f"delete from {kt}")
+        if start != "transient":
+            c.exec_driver_sql(f"insert into {kt} (id, x) values (1, 10)")
+        if start == "persistent":
+            c.exec_driver_sql(f"insert into {ct} (id, pid, x) values (1, 1, 10)")
+    s = Session(engine)
+    o1 = K(id=1) if start == "transient" else s.get(K, 1)
+    o2 = s.get(Kc, 1) if start == "persistent" else Kc(id=1)
+    if start == "persistent":
+        assert list(o1.kids) == [o2]                          # both loaded, linked in the database, the collection loaded
+    return s, [o1, o2], K
+
+
+def run_history(names, nobj, engine=None, start="transient", cascade=None):
+    """-> dict(fail=None|descriptor fields, failed_at, transitions=set, steps).  cascade=None: nobj independent objects of the harness class P;
+    cascade=<one of CASCADES>: the parent / child pair (nobj is 2)"""
     from sqlalchemy.orm import Session
     from sqlalchemy.orm.util import was_deleted
     install()
     m = H.mappings()
-    engine = engine or _G["engine"]
-    with engine.begin() as c:
-        c.exec_driver_sql("delete from p")
-        if start == "persistent":
-            c.exec_driver_sql("insert into p (id, x) values (1, 10), (2, 20)")
-    s = Session(engine)
-    if start == "persistent":
-        objs = [s.get(m.P, i + 1) for i in range(nobj)]       # loaded: persistent at the start of the history
+    if cascade is not None:
+        s, objs, cls = _start_pair(cascade, start, engine or _G["pair_engine"])
     else:
-        objs = [m.P(id=i + 1) for i in range(nobj)]           # constructed by the application: transient
+        cls = m.P
+        engine = engine or _G["engine"]
+        with engine.begin() as c:
+            c.exec_driver_sql("delete from p")
+            if start == "persistent":
+                c.exec_driver_sql("insert into p (id, x) values (1, 10), (2, 20)")
+        s = Session(engine)
+        if start == "persistent":
+            objs = [s.get(m.P, i + 1) for i in range(nobj)]       # loaded: persistent at the start of the history
+        else:
+            objs = [m.P(id=i + 1) for i in range(nobj)]           # constructed by the application: transient
     log = _G["log"]
     notes = [[] for _ in objs]
     transitions = set()
+    cascaded = set()
     fail = None
     failed_at = None
     try:
@@ -136,10 +208,16 @@ def run_history(names, nobj, engine=None, start="transient"):
                     notes[k].append(f"{name} while deleted")
                 elif before[k] == ["detached"] and was_deleted(objs[k]):
                     notes[k].append(f"{name} while detached after its deletion was committed")
+                if cascade is not None and k == 0 and "delete" in cascade.replace("all", "delete") and objs[1] in objs[0].__dict__.get("kids", ()):
+                    # the delete cascade hands the child in the parent's loaded collection to the same code path
+                    if before[1] == ["deleted"]:
+                        notes[1].append(f"{name} cascades to o2 while deleted")
+                    elif before[1] == ["detached"] and was_deleted(objs[1]):
+                        notes[1].append(f"{name} cascades to o2 while detached after its deletion was committed")
             del log[:]
             raised = None
             try:
-                do(name, s, objs, m.P)
+                do(name, s, objs, cls)
             except Exception as ex:
                 raised = type(ex).__name__
             after = [state_of(o) for o in objs]
@@ -150,7 +228,13 @@ def run_history(names, nobj, engine=None, start="transient"):
                     break
                 b, a = before[k][0], after[k][0]
                 if b != a or evs:
-                    transitions.add((name.split("(")[0], b, a, tuple(evs)))
+                    if cascade is None:
+                        transitions.add((name.split("(")[0], b, a, tuple(evs)))
+                    else:
+                        t = (name, f"o{k + 1}", b, a, tuple(evs))
+                        transitions.add(t)
+                        if "(" in name and not name.endswith(f"(o{k + 1})"):
+                            cascaded.add(t)                        # the operation named the OTHER object: a transition by cascade
                 why = judge(name, b, a, evs)
                 if why:
                     fail = dict(object=f"o{k + 1}", before=b, after=a, events=evs, raised=raised, notes=notes[k], broken="T: " + why)
@@ -165,44 +249,58 @@ def run_history(names, nobj, engine=None, start="transient"):
         except Exception:
             pass
         del log[:]
-    return dict(fail=fail, failed_at=failed_at, transitions=transitions)
+    return dict(fail=fail, failed_at=failed_at, transitions=transitions, cascaded=cascaded)
 
 
 def _worker(job):
     H.quiet()
     if _G["engine"] is None:
         _G["engine"] = H.new_engine()
-    nobj, start = job["nobj"], job["start"]
-    ops = OPS1 if nobj == 1 else OPS2
-    res = dict(evaluations=0, steps=0, nontrivial=0, failures=[], samples=[], skipped_prefix_already_broken=0, transitions=set())
+    nobj, start, cascade = job["nobj"], job["start"], job.get("cascade")
+    if cascade is not None and _G["pair_engine"] is None:
+        _G["pair_engine"] = H.new_engine(pair_mappings()["Base"].metadata)
+    ops = PAIR_OPS if cascade is not None else (OPS1 if nobj == 1 else OPS2)
+    res = dict(evaluations=0, steps=0, nontrivial=0, failures=[], samples=[], skipped_prefix_already_broken=0, transitions=set(), pair_evaluations=0,
+               pair_transitions=set(), cascaded_transitions=set())
     for idxs in H.job_sequences(len(ops), job):
         names = [ops[k] for k in idxs]
-        r = run_history(names, nobj, start=start)
+        r = run_history(names, nobj, start=start, cascade=cascade)
         res["evaluations"] += 1
         res["steps"] += len(names)
         if r["transitions"]:
             res["nontrivial"] += 1
-            res["transitions"] |= r["transitions"]
+            if cascade is None:
+                res["transitions"] |= r["transitions"]
+            else:
+                res["pair_transitions"] |= {(cascade,) + t for t in r["transitions"]}
+                res["cascaded_transitions"] |= {(cascade,) + t for t in r["cascaded"]}
+        if cascade is not None:
+            res["pair_evaluations"] += 1
+        extra = {} if cascade is None else dict(pair_cascade=cascade)          # (key sorts after `ops`: known-finding patterns on the leading keys stay valid)
         if r["fail"]:
             if r["failed_at"] == len(names) - 1:
-                res["failures"].append(dict(r["fail"], ops=names, objects=nobj, start=start, last_op=names[-1]))
+                res["failures"].append(dict(r["fail"], ops=names, objects=nobj, start=start, last_op=names[-1], **extra))
             else:
                 res["skipped_prefix_already_broken"] += 1
-        elif len(r["transitions"]) >= 2 and not res["samples"] and len(names) == job["length"]:
-            res["samples"].append(dict(objects=nobj, start=start, ops=names, observed=[list(t[:3]) + [list(t[3])] for t in sorted(r["transitions"])]))
+        elif len(r["transitions"]) >= 2 and len(names) == job["length"] and (not res["samples"] or (r["cascaded"] and not res["samples"][-1].get("pair_cascade"))):
+            res["samples"].append(dict(objects=nobj, start=start, ops=names, observed=[list(t[:-1]) + [list(t[-1])] for t in sorted(r["transitions"])], **extra))
     return res
 
 
 def scope_for(tier):
-    return ((1, 2, 3, 4), (1, 2, 3)) if tier == "quick" else ((1, 2, 3, 4, 5), (1, 2, 3, 4))
+    """lengths: one object, two independent objects, parent / child pair"""
+    return ((1, 2, 3, 4), (1, 2, 3), (1, 2, 3)) if tier == "quick" else ((1, 2, 3, 4, 5), (1, 2, 3, 4), (1, 2, 3, 4))
 
 
 def bounded(run, tier, seed):
     t0 = time.time()
-    l1, l2 = scope_for(tier)
+    l1, l2, l3 = scope_for(tier)
     joblist = []
     for start in ("transient", "persistent"):
         joblist += H.jobs(len(OPS1), l1, min_jobs=100, nobj=1, start=start) + H.jobs(len(OPS2), l2, min_jobs=100, nobj=2, start=start)
+    for cascade in CASCADES:
+        for start in PAIR_STARTS:
+            joblist += H.jobs(len(PAIR_OPS), l3, min_jobs=16, nobj=2, start=start, cascade=cascade)
     if seed:
         import random
         random.Random(seed).shuffle(joblist)
@@ -211,7 +309,7 @@ def bounded(run, tier, seed):
         agg.add(r)
     failures = agg.get("failures", [])
     seen = set()
-    for d in sorted(failures, key=lambda d: (len(d["ops"]), d["objects"], d["ops"])):
+    for d in sorted(failures, key=lambda d: (len(d["ops"]), d["objects"], d.get("pair_cascade", ""), d["start"], d["ops"])):
         dj = json.dumps(d, sort_keys=True, default=repr)
         k = run.match_known(function=FN + "/" + d["last_op"].split("(")[0], input=dj)
         if k is not None:
@@ -221,19 +319,30 @@ def bounded(run, tier, seed):
         if cls in seen or len(seen) >= 8:
             continue
         seen.add(cls)
-        run.violation(f"lifecycle-{d['objects']}obj-{d['start']}-" + "-".join(d["ops"]),
+        world = f"{d['objects']}obj" if "pair_cascade" not in d else "pair-" + d["pair_cascade"].replace(", ", "+")
+        run.violation(f"lifecycle-{world}-{d['start']}-" + "-".join(d["ops"]),
                       dict(function=FN + "/" + d["last_op"].split("(")[0], input=d, expected="events form a path of the documented automaton from the state before to the state after",
                            actual=d["broken"], reason="bounded run-time contract check (C35_bounded)"))
     trans = agg.get("transitions", set())
+    ptrans = agg.get("pair_transitions", set())
+    ctrans = agg.get("cascaded_transitions", set())
+    samples = sorted(agg.get("samples", []), key=lambda x: -len(x["observed"]))
+    samples = [x for x in samples if "pair_cascade" not in x][:3] + [x for x in samples if "pair_cascade" in x][:3]
     blk = dict(
-        scope=f"objects of one mapped class, either constructed by the application (transient at the start) or loaded (persistent at the start), one Session on SQLite :memory: per history; for each start ALL histories of length in "
-              f"{list(l1)} over {len(OPS1)} operations on one object {OPS1} and ALL histories of length in {list(l2)} over {len(OPS2)} operations on two objects; clauses P and T "
-              f"evaluated for every object after every operation",
-        evaluations=agg["evaluations"], distinct_nontrivial=len(trans),
-        rule="histories are enumerated exhaustively; distinct_nontrivial counts the DISTINCT observed (operation, state before, state after, events fired) tuples with a state "
-             "change or at least one event — the distinct edges / paths of the automaton actually exercised and judged (identity steps without events are trivial)",
-        samples=sorted(agg.get("samples", []), key=lambda x: -len(x["observed"]))[:4], exhaustive=True, label="bounded (not proof)",
+        scope=f"(a) objects of one mapped class, either constructed by the application (transient at the start) or loaded (persistent at the start), one Session on SQLite :memory: per history; for each start ALL histories of length in "
+              f"{list(l1)} over {len(OPS1)} operations on one object {OPS1} and ALL histories of length in {list(l2)} over {len(OPS2)} operations on two objects; "
+              f"(b) a parent o1 and a child o2 related by a one-to-many with back reference, for each cascade configuration in {CASCADES} x each start in {PAIR_STARTS} "
+              f"(both constructed / parent loaded, child constructed / both loaded, linked and the collection loaded) ALL histories of length in {list(l3)} over the {len(PAIR_OPS)} operations "
+              f"{PAIR_OPS} (append / remove = o1.kids.append(o2) / .remove(o2)); clauses P and T evaluated for every object after every operation, including the object the operation did not name",
+        evaluations=agg["evaluations"], distinct_nontrivial=len(trans) + len(ptrans),
+        rule="histories are enumerated exhaustively; distinct_nontrivial counts the DISTINCT observed (operation, state before, state after, events fired) tuples — for the pair family "
+             "(cascade configuration, operation, object, state before, state after, events fired) — with a state change or at least one event: the distinct edges / paths of the automaton "
+             "actually exercised and judged (identity steps without events are trivial)",
+        samples=samples, exhaustive=True, label="bounded (not proof)",
         steps=agg["steps"], histories_with_a_transition=agg["nontrivial"], contract_failures=len(failures),
+        pair_histories=agg["pair_evaluations"], distinct_pair_transitions=len(ptrans),
+        distinct_transitions_by_cascade=len(ctrans),
+        transitions_by_cascade_per_configuration={c: len([t for t in ctrans if t[0] == c]) for c in CASCADES},
         skipped_prefix_already_broken=agg["skipped_prefix_already_broken"], wall_s=round(time.time() - t0, 1))
     run.coverage.setdefault("bounded", []).append(blk)
     return blk
@@ -242,7 +351,9 @@ def bounded(run, tier, seed):
 def replay(data):
     H.quiet()
     d = data["input"]
-    r = run_history(d["ops"], d["objects"], H.new_engine(), d.get("start", "transient"))
+    casc = d.get("pair_cascade")
+    eng = H.new_engine() if casc is None else H.new_engine(pair_mappings()["Base"].metadata)
+    r = run_history(d["ops"], d["objects"], eng, d.get("start", "transient"), casc)
     if r["fail"]:
         print(f"REPLAY-FAILS {FN} ops={d['ops']} {r['fail']}")
         return 1
